@@ -68,6 +68,10 @@ UNITS = {
         ],
         'trusted': ['CBMC floating-point model (IEEE-754 binary64, round-to-nearest-even)'],
     },
+    'mmap_rows': {
+        'template': 'mmap_rows.vrs', 'backend': 'verus',
+        'serves': ['C14', 'C05'],
+    },
     'n2k': {
         'template': 'n2k.vrs', 'backend': 'verus',
         'serves': ['C02', 'C03'],
@@ -138,6 +142,17 @@ PROPS = {
                       'run as dependencies; float division is the IEEE correctly rounded quotient and {:.6} formatting is std (not verified): "correct to 6 decimals" rests on those. '
                       'Reverse-complement / case / U-for-T invariance follows from the spec (nt ignores case, maps U to 3; canonical code is strand-symmetric).',
         'not_reached': ['text rendering of the row (format!("{:.6}"), join) and the file/CLI path: see C05', 'pyo3 argument conversion for the binding'],
+    },
+    'C14': {
+        'units': ['mmap_rows', 'oligo_vec'], 'deps': ['kmer_gen', 'posmaps'], 'replay': 'c14',
+        'level_text': 'Verus proves (a) every get_unchecked / get_unchecked_mut call site of the oligo accumulation loops (3 copies) against exactly the '
+                      'safety precondition of the unchecked access, for every byte string and every k <= 15; (b) for the integer layout statements of vectorise_mmap, lifted '
+                      'verbatim: per-row size equals the real row length for every delimiter length, the mapping size is header + records x row length (exact tiling), and each '
+                      'row write covers exactly slot record.n (inside the mapping, disjoint for distinct ordinals).',
+        'level_note': 'trusted: Verus/Z3; extractor M3 statement lifting + R8 join stub; dependency stubs: seq_stats/get_reader/SeqFormat::get (record count of the statistics pass == records iterated), '
+                      'String::len/as_bytes byte length, MMWriter::write_at modelled by its stated safety precondition plus the slot discipline (the raw ptr::copy_nonoverlapping and the mmap itself are unsafe code outside the tools); '
+                      'assumed: a normalised value in [0,1] formats to exactly 8 bytes with {:.6}; header line < 4 GiB. Coverage and counter unchecked accesses are decided in their own units when listed among the bundles.',
+        'not_reached': ['the glue between the lifted fragments (closure captures, `let header_len = header.len()`, the Mutex-guarded record hand-out)', 'unsafe pointer copy inside MMWriter::write_at; memmap2'],
     },
 }
 
